@@ -46,6 +46,11 @@ class StorageUnitLabel:
         if max_record_length > self.max_record_length_limit:
             raise ValueError(f"Max record length cannot be larger than {self.max_record_length_limit}")
 
+    def __setattr__(self, key: str, value: Any) -> None:
+        if key == 'set_identifier' and 'set_identifier' in self.__dict__:
+            validate_string(value)  # a new identifier is subject to the same check as the one given at creation
+        return super().__setattr__(key, value)
+
     @staticmethod
     def _check_sequence_number(sequence_number: Any) -> None:
         """Check that the sequence number is (the text of) a positive integer, as the label requires."""
